@@ -8,7 +8,7 @@ import "fmt"
 // correctly - never silently wrong.
 
 // LimitKinds lists the generated shapes.
-var LimitKinds = []string{"locals", "params", "free", "free-returned", "free-nested", "selectors", "array-literal", "long-if", "long-loop", "long-logical", "consts-closure", "globals-selstore", "map-literal", "consts-dup", "spread-args"}
+var LimitKinds = []string{"locals", "params", "free", "free-returned", "free-nested", "selectors", "array-literal", "long-if", "long-loop", "long-logical", "consts-closure", "globals-selstore", "map-literal", "consts-dup", "spread-args", "free-refs"}
 
 // LimitSizes are the boundary sizes per kind.
 func LimitSizes(kind string) []int {
@@ -20,6 +20,9 @@ func LimitSizes(kind string) []int {
 	case "spread-args":
 		// n written arguments, the last one spread
 		return []int{254, 255, 256, 257}
+	case "free-refs":
+		// n REFERENCES to three captured variables: no limit is exceeded, the program must compile and run
+		return []int{255, 256, 257, 300}
 	case "free", "free-returned", "free-nested":
 		return []int{254, 255, 256, 257}
 	case "long-if", "long-loop", "long-logical":
@@ -65,6 +68,14 @@ func Limits(kind string, n int) *Program {
 		}
 		body := []Stmt{&Return{X: &ArrayLit{Elems: []Expr{I(v(0)), I(v(1)), I(v(n - 2)), I(v(n - 1))}}}}
 		return &Program{Main: []Stmt{Def("f", &FuncLit{Params: ps, Body: body}), Def("out", C(I("f"), args...))}}
+	case "free-refs":
+		var sum Expr = N("0")
+		names := []string{"p", "q", "r"}
+		for i := 0; i < n; i++ {
+			sum = B("+", sum, I(names[i%3]))
+		}
+		body := []Stmt{Def("p", N("1")), Def("q", N("2")), Def("r", N("3")), &Return{X: &FuncLit{Body: []Stmt{&Return{X: sum}}}}}
+		return &Program{Main: []Stmt{Def("f", &FuncLit{Body: body}), Def("out", C(C(I("f")))), Set(I("f"), Undef())}}
 	case "spread-args":
 		var args []Expr
 		for i := 0; i < n-1; i++ {
